@@ -15,6 +15,7 @@ def spec(tier, seed):
         for m in (1, 2):
             sk.instr_equation(b, ins, "vk_c17", h, m, "quick" if h <= 3 else "thorough")
     val = b.file(sk.VAL_FILE, "rusty_basic", "interpreter::built_ins::val")
+    b.helper(val, sk.POWI10)
     for d in (1, 2, 3, 4, 5):
         sk.val_equation(b, val, "vk_c17", d, False, "quick" if d <= 3 else "thorough", core=d <= 3)
     for d in (1, 2, 3):
@@ -27,5 +28,6 @@ def spec(tier, seed):
                "VAL on 1..3 (quick) / 1..5 digits; argument conversions full width",
         outside="LEFT$, RIGHT$, LTRIM$, RTRIM$, UCASE$, LCASE$, SPACE$, STRING$, LEN and the concatenation laws (inline in "
                 "run<S: InterpreterTrait>, need the VM Context); STR$ (format!); non-ASCII strings; INSTR with an empty needle",
+        stubs=["f64::powi(10.0, k) -> exact product for 0 <= k <= 6 (Kani over-approximates powi); used only by vk_c17_val_*"],
         assumptions=["the string argument has been type-checked (to_str_unchecked is not part of the kernels)"],
     )
